@@ -5,29 +5,51 @@ import os
 import random
 import re
 import subprocess
+import threading
 import vlib
 
 META = {
-    "engine": "Calendar.tla, CalendarDays.tla, CalendarClock.tla, CalendarText.tla, Trace_Calendar.tla",
+    "engine": "Calendar.tla, CalendarDays.tla, CalendarClock.tla, CalendarText.tla, Trace_Calendar.tla, CalendarZone.tla, "
+              "CalendarZoneDays.tla, CalendarPattern.tla, CalendarArith.tla, CalendarDaysNeg.tla, Trace_CalendarZone.tla",
     "technique": "TLC walks every day of years 1..9999 (successor rule) and every second of a day (carry rule) checking the "
                  "closed-form day number / inverse / year-start table and clock split against them, and generates date-time "
                  "texts (all zone offsets, lexical variants, 1..9 fraction digits, the four output formats) with the instants "
                  "they denote, and texts (with all their prefixes) for the format-driven constructor Date(text, format); every "
                  "generated row/text is replayed on the real asl::Date under ASan; recorded random "
                  "executions (instants incl. sub-millisecond ones, well-formed / mutated / random strings) are validated by "
-                 "TLC with the same operators",
+                 "TLC with the same operators.  Growth: zone rules with daylight saving (CalendarZone.tla) rendered by the "
+                 "specification as POSIX TZ strings that the harnesses put into the environment of the library; TLC walks the "
+                 "local calendar of 8 zones day by day (counted change days and a toggled daylight flag against the closed "
+                 "forms) and emits offsets, local fields, the five local texts and the instants denoted by local times incl. "
+                 "the skipped and the repeated hour; every format of the Date(text, format) mini-language up to a length and "
+                 "every order of the fields as a formatter/parser pair; arithmetic, order, years 0 / negative / above 9999, "
+                 "invalid and huge values; all replayed on asl::Date; recorded executions in each zone (offset, split, local "
+                 "constructor, texts, readings, now(), + - < ==) validated by Trace_CalendarZone.tla",
     "design_ref": "DESIGN.md section 6, C19",
     "level_text": "TLC model-checks the calendar (3.65 M days, three independent formulations + successor rule), the clock "
                   "(86 400 s) and the text generator (Read(Format(i)) = i, zone shift for every offset -23:59..+23:59) and "
                   "every row and text it generates is executed on asl::Date (splitUTC, Date(UTC,..), toUTCString, Date(String), "
                   "Date(String, format)) "
-                  "with exact comparison; recorded executions of the real code are accepted by Trace_Calendar.tla.",
+                  "with exact comparison; recorded executions of the real code are accepted by Trace_Calendar.tla.  "
+                  "Local time: CalendarZoneDays model-checks 8 zone rules (whole- and half-hour offsets, both hemispheres, a 30 min "
+                  "shift, changes at midnight) against the counted calendar and every emitted instant / local time around each "
+                  "change and one instant per day is executed (localOffset, split, accessors, Date(LOCAL,..), Date(y,..), "
+                  "toString in 5 formats, Date(String) without designator) under the TZ string the specification rendered; "
+                  "CalendarPattern checks Parse(Format(t, f), f) = t for every injective format and replays every format up to "
+                  "length 5 (6 thorough) and all 1158 field orders; CalendarArith the laws of + - < == and the far years; "
+                  "recorded executions in each zone are accepted by Trace_CalendarZone.tla.",
     "level_note": "Finite spaces (days, seconds of a day, zone offsets) are complete; instants are otherwise sampled (seeded). "
                   "Date holds a double: the harness converts (day, second, microsecond) to that double and accepts 100 us of "
                   "representation error when comparing parsed instants (a double resolves 30 us in year 9999); instants closer "
                   "than 150 us to a millisecond rounding boundary are not generated. Strings outside the ISO/HTTP forms the spec "
-                  "vouches for are only observed (ASan, termination), any result is accepted. Local-zone functions are not covered "
-                  "(TZ=UTC). Memory safety is observed by ASan/LSan, not decided by the model.",
+                  "vouches for are only observed (ASan, termination), any result is accepted. "
+                  "Local time is checked in 8 synthetic POSIX zones (no zoneinfo data base: no historical rule changes, no "
+                  "offsets with seconds); outside 1970..2038 the library approximates the daylight period, there the offset is "
+                  "only required to be the rule's when no change is within 10 days, else one of the zone's two offsets; a local "
+                  "time in the skipped hour may denote either neighbour; out-of-range constructor fields (day 0, hour 24, ..), "
+                  "texts of years outside 0..9999, the obsolete HTTP date forms and values beyond +-1.8e14 s are unspecified "
+                  "and only observed. Date::now() is compared with the system clock read by the recorder. "
+                  "Memory safety is observed by ASan/LSan, not decided by the model.",
 }
 
 MONTH_RE = re.compile(r'\{"k":"month","y":(\d+),"m":(\d+),')
@@ -37,15 +59,17 @@ def _models(ctx, jobs):
     """Run TLC model-checking jobs side by side ((spec, cfg, emit path, timeout, workers)), then do the same bookkeeping as
     Ctx.model for each: success required, no action left uncovered, state counters."""
     def one(j):
-        spec, cfg, emit, timeout, workers = j
-        return j, vlib.tlc(spec, cfg, emit_to=emit, timeout=timeout, workers=workers, xmx="6g", coverage=True)
+        spec, cfg, emit, timeout, workers = j[:5]
+        cov = j[5] if len(j) > 5 else True
+        return j, vlib.tlc(spec, cfg, emit_to=emit, timeout=timeout, workers=workers, xmx="6g" if cov else "3g", coverage=cov)
 
     with cf.ThreadPoolExecutor(len(jobs)) as ex:
         results = list(ex.map(one, jobs))
-    for (spec, cfg, emit, timeout, workers), r in results:
+    for j, r in results:
+        spec, cfg = j[0], j[1]
         what = "%s/%s" % (spec, cfg)
         vlib.tlc_expect_ok(r, what)
-        z = vlib.zero_coverage(r)
+        z = vlib.zero_coverage(r) if (len(j) < 6 or j[5]) else []
         if z:
             raise vlib.HarnessError("%s: vacuous run, actions never taken: %s" % (what, z))
         ctx.states += r.distinct
@@ -95,11 +119,8 @@ def _pick_days(ctx, months_path, count):
     return [list(x) for x in sorted(set(tuple(x) for x in days))]
 
 
-def run(ctx):
-    lib = vlib.build_lib("asan")
-    rep = vlib.build_harness(lib, "c19_replay", ["c19_replay.cpp"])
-    rec = vlib.build_harness(lib, "c19_record", ["c19_record.cpp"])
-    ctx.exhaustive = True
+def _utc_lane(ctx, rep, rec, vlock):
+    """The property as listed: UTC calendar, clock, texts (R) and recorded executions in UTC (V)."""
     ctx.rule = ("cases: one per month of years 1..9999 (every day x times of day), one per minute of the day (60 seconds x the "
                 "selected days), one per generated text; evaluations: library calls compared with a TLC-computed value; "
                 "non-trivial = every case (each carries >= 3 comparisons)")
@@ -144,14 +165,15 @@ def run(ctx):
     os.unlink(texts)
 
     # 3. V: recorded executions validated by TLC
-    files = ctx.record(rec, ctx.pick(10, 48), ctx.pick(4000, 40000), "V/Calendar")
-    if files:
-        with open(files[0]) as f:
-            tsamples += [ln.strip()[:300] for ln in f.readlines()[1:4]]
-    ctx.validate_traces("Trace_Calendar", "Trace_Calendar", files, label="V/Calendar", timeout=ctx.pick(600, 3000))
-    ctx.samples = [x[:260] + (" ..." if len(x) > 260 else "") for x in ctx.samples[:1]] + tsamples
+    with vlock:
+        files = ctx.record(rec, ctx.pick(10, 48), ctx.pick(4000, 40000), "V/Calendar")
+        if files:
+            with open(files[0]) as f:
+                tsamples += [ln.strip()[:300] for ln in f.readlines()[1:4]]
+        ctx.validate_traces("Trace_Calendar", "Trace_Calendar", files, label="V/Calendar", timeout=ctx.pick(600, 3000))
     ctx.assumptions += [
-        "TZ=UTC, LC_ALL=C; only the UTC functions of Date are exercised (Date(text, format) builds a local time, which is UTC here)",
+        "the runs of the listed property use TZ=UTC, LC_ALL=C (Date(text, format) builds a local time, which is UTC there); the local "
+        "functions are exercised by the zone runs",
         "Date(text, format): the spec vouches for the result only when the whole text matches the whole format with 1..9-digit "
         "numbers and valid fields; every other text (all prefixes of matching texts are generated) may give any value in bounds",
         "instants are (day, second, microsecond) triples converted to double by the harness; parsed instants are compared with "
@@ -162,12 +184,134 @@ def run(ctx):
         "strings the reading relation Read() of Calendar.tla does not accept (no zone designator, invalid field, other shapes) "
         "may produce any result; they are executed under ASan with a time limit only",
     ]
+    return tsamples
+
+
+ZONE_KINDS = ("zmonth", "zchange", "zpat", "add", "diff", "cmp", "far", "inv", "huge", "old", "oor", "unit")
+NZONES = 8
+
+
+def _zone_vacuity(path):
+    """CalendarZoneDays runs without -coverage (TLC's cost model runs out of memory on it): vacuity is decided on what
+    was emitted - every zone has month lines, every zone with daylight saving has start and end lines, the skipped and
+    the repeated hour occur."""
+    months, starts, ends, kinds = {}, {}, {}, set()
+    with open(path) as f:
+        for ln in f:
+            i = ln.index('"tz":')
+            tz = ln[i:ln.index("]", i)]
+            if '"k":"zmonth"' in ln[:20] or ln.startswith('{"k":"zmonth"'):
+                months[tz] = months.get(tz, 0) + 1
+            elif '"zchange"' in ln[:20]:
+                d = starts if '"start":1' in ln else ends
+                d[tz] = d.get(tz, 0) + 1
+                for k in ("skipped", "repeated", "unique"):
+                    if '"kind":"%s"' % k in ln:
+                        kinds.add(k)
+    dst = [tz for tz in months if "44," in tz]          # a comma in the TZ string: the zone has a daylight rule
+    if len(months) != NZONES or any(tz not in starts or tz not in ends for tz in dst) or len(dst) < 6 or \
+            kinds != {"skipped", "repeated", "unique"}:
+        raise vlib.HarnessError("CalendarZoneDays: vacuous run (zones %d, with start %d, with end %d, kinds %s)" %
+                                (len(months), len(starts), len(ends), sorted(kinds)))
+    return sum(months.values()), sum(starts.values()) + sum(ends.values())
+
+
+def _zone_lane(ctx, rep, zrep, zrec, vlock):
+    """Growth: local time with daylight saving, the format mini-language, arithmetic/order, the ends of the representation."""
+    zone = os.path.join(ctx.tmp, "c19-zone.cases")
+    pat = os.path.join(ctx.tmp, "c19-pat.cases")
+    arith = os.path.join(ctx.tmp, "c19-arith.cases")
+    neg = os.path.join(ctx.tmp, "c19-neg.cases")
+    big = os.path.join(ctx.tmp, "c19-big.cases")
+    to = ctx.pick(900, 3000)
+    _models(ctx, [("CalendarZoneDays", ctx.pick("MC_CalendarZoneDays_quick", "MC_CalendarZoneDays_thorough"), zone, to, ctx.pick(4, 8), False),
+                  ("CalendarPattern", ctx.pick("MC_CalendarPattern_quick", "MC_CalendarPattern_thorough"), pat, to, ctx.pick(3, 4)),
+                  ("CalendarArith", "MC_CalendarArith", arith, to, 1),
+                  ("CalendarDaysNeg", ctx.pick("MC_CalendarDays_neg", "MC_CalendarDays_neg_thorough"), neg, to, 2),
+                  ("CalendarDays", ctx.pick("MC_CalendarDays_big", "MC_CalendarDays_big_thorough"), big, to, ctx.pick(1, 2))])
+    nmonths, nchanges = _zone_vacuity(zone)
+    ctx.extra["zone_month_lines"] = nmonths
+    ctx.extra["zone_change_days"] = nchanges
+    samples = []
+    with open(zone) as f:
+        for ln in f:
+            if '"zchange"' in ln[:20]:
+                samples.append(ln.strip()[:600])
+                break
+    # one case file for the zone replayer, one (month lines of far years) for the calendar replayer
+    allz = os.path.join(ctx.tmp, "c19-zone-all.cases")
+    with open(allz, "w") as out:
+        for p in (zone, pat, arith):
+            with open(p) as f:
+                for ln in f:
+                    out.write(ln)
+            os.unlink(p)
+    far = os.path.join(ctx.tmp, "c19-far.cases")
+    with open(far, "w") as out:
+        for p in (neg, big):
+            with open(p) as f:
+                for ln in f:
+                    out.write(ln)
+            os.unlink(p)
+    ctx.replay(zrep, allz, label="R/CalendarZone+Pattern+Arith", timeout=ctx.pick(900, 3000))
+    os.unlink(allz)
+    ctx.replay(rep, far, label="R/CalendarDays-far-years", timeout=ctx.pick(900, 3000))
+    os.unlink(far)
+    # V: one recorder per zone
+    with vlock:
+        files = []
+        for z in range(1, NZONES + 1):
+            files += ctx.record(zrec, ctx.pick(1, 4), ctx.pick(3000, 30000), "V/ZoneCalendar-z%d" % z, extra_args=("--mode", str(z)))
+        if files:
+            with open(files[0]) as f:
+                samples += [ln.strip()[:300] for ln in f.readlines()[0:3]]
+        ctx.validate_traces("Trace_CalendarZone", "Trace_CalendarZone", files, label="V/ZoneCalendar", timeout=ctx.pick(600, 3000))
+    ctx.assumptions += [
+        "zones are the 8 rules of CalendarZone.tla, rendered by the specification as POSIX TZ strings (TzString) and given to the "
+        "library through the environment (TZ) - the C library interprets the same rule the specification defines; no zoneinfo data",
+        "outside 1970-01-01 .. 2038-01-01 the library approximates the local offset (documented only as a code comment): there the "
+        "offset must be the rule's when no change of the offset lies within 10 days, else one of the two offsets of the zone",
+        "a local time in the hour skipped when daylight time starts may denote either of its two neighbours (local time minus "
+        "the standard or minus the daylight offset); a local time in the repeated hour may denote either of its two instants",
+        "toUTCString(DATE_ONLY): a trailing 'Z' after the date is accepted and not required (documentation: 'just the date part')",
+        "Date(text, format): vouched for when the whole text matches the whole format, numbers have 1..9 digits, year (0..99999), "
+        "month and day are present and valid; the result is that local time in the zone of the case",
+        "years -100 000 .. 100 000 (the constructor's own lower limit) are checked through splitUTC / Date(UTC, ..); texts of years "
+        "outside 0..9999, out-of-range constructor fields, the obsolete HTTP date forms and values beyond the int day range are "
+        "executed under ASan only",
+    ]
+    return samples
+
+
+def run(ctx):
+    lib = vlib.build_lib("asan")
+    rep = vlib.build_harness(lib, "c19_replay", ["c19_replay.cpp"])
+    rec = vlib.build_harness(lib, "c19_record", ["c19_record.cpp"])
+    zrep = vlib.build_harness(lib, "c19_zone_replay", ["c19_zone_replay.cpp"])
+    zrec = vlib.build_harness(lib, "c19_zone_record", ["c19_zone_record.cpp"])
+    ctx.exhaustive = True
+    vlock = threading.Lock()          # Ctx.record / validate_traces keep their bookkeeping in the context: one V pair at a time
+    with cf.ThreadPoolExecutor(2) as ex:
+        lanes = [ex.submit(_utc_lane, ctx, rep, rec, vlock), ex.submit(_zone_lane, ctx, rep, zrep, zrec, vlock)]
+        cf.wait(lanes)
+    tsamples = []
+    for f in lanes:
+        tsamples += f.result()        # re-raises HarnessError of a lane
+    ctx.samples = [x[:260] + (" ..." if len(x) > 260 else "") for x in ctx.samples[:1]] + tsamples
 
 
 def replay(path):
     lib = vlib.build_lib("asan")
-    if os.path.basename(path).startswith("rec-") or path.endswith(".ndjson"):
+    base = os.path.basename(path)
+    if base.startswith("rec-") or path.endswith(".ndjson"):
+        if "ZoneCalendar" in base:
+            return vlib.replay_recorded(path, lib, "c19_zone_record", ["c19_zone_record.cpp"], "Trace_CalendarZone", "Trace_CalendarZone")
         return vlib.replay_recorded(path, lib, "c19_record", ["c19_record.cpp"], "Trace_Calendar", "Trace_Calendar")
-    rep = vlib.build_harness(lib, "c19_replay", ["c19_replay.cpp"])
+    with open(path) as f:
+        first = f.readline()
+    if any('"k":"%s"' % k in first for k in ZONE_KINDS):
+        rep = vlib.build_harness(lib, "c19_zone_replay", ["c19_zone_replay.cpp"])
+    else:
+        rep = vlib.build_harness(lib, "c19_replay", ["c19_replay.cpp"])
     r = subprocess.run([rep, "--single", path, "--case-timeout-ms", "120000"], env=vlib.run_env())
     return 1 if r.returncode == 1 else (0 if r.returncode == 0 else 2)
